@@ -270,3 +270,55 @@ func VC04_procs() {
 	}
 	c4check(procs, true)
 }
+
+// VC04_grow: both processes record the same name into a file whose first page is used up,
+// so each of them has to extend and remap the file while the other may be anywhere in its
+// own lookup / reservation / link sequence.
+func VC04_grow() {
+	vos.Reset()
+	vrt.ResetThreads()
+	telemetry.Default = telemetry.NewDir(c4root)
+	vos.AddDir(c4root + "/local")
+	vos.AddFile(c4root+"/local/weekends", []byte("2\n"))
+	day := vrt.DaysFromCivil(2024, 1, 10)
+	CounterTime = func() time.Time { return time.Unix(day*86400+100, 0).UTC() }
+	f0 := &file{buildInfo: c3bi()}
+	f0.rotate1()
+	(&Counter{name: "old", file: f0}).Add(5)
+	m := f0.current.Load()
+	d := m.mapping.Data
+	lim := uint32(pageSize - 32)
+	d[m.hdrLen], d[m.hdrLen+1], d[m.hdrLen+2], d[m.hdrLen+3] = byte(lim), byte(lim>>8), byte(lim>>16), byte(lim>>24)
+	m.close()
+	names := []string{"a", "a"}
+	if vrt.Bool() {
+		names[1] = c4collide()
+	}
+	var procs []*c4proc
+	for i := 0; i < 2; i++ {
+		a := vrt.I64()
+		vrt.Assume(a > 0 && a < 1<<20)
+		procs = append(procs, &c4proc{name: names[i], amount: a})
+	}
+	for _, p := range procs {
+		p := p
+		vrt.Go(func() {
+			f := &file{buildInfo: c3bi()}
+			f.rotate1()
+			p.opened = f.err == nil && f.current.Load() != nil
+			c := &Counter{name: p.name, file: f}
+			p.begun = true
+			c.Add(p.amount)
+			if c.state.load().extra() == 0 && p.opened {
+				p.done = true
+			}
+		})
+	}
+	vrt.MaxPreempt = vrt.Param("preempt", 1)
+	vrt.RunThreads()
+	vrt.Assert(!vrt.Deadlock, "no process is blocked by another")
+	for _, p := range procs {
+		vrt.Assert(p.opened && p.done, "every process records its increment")
+	}
+	c4check(procs, true)
+}
